@@ -660,7 +660,7 @@ def programs(*, max_statements=4, max_leaves=6, max_offset=3, named_periods=Fals
             prog[which] = ['assign', prog[which][1], new_rhs]
         if blocks and draw(st.booleans()):
             prog.insert(draw(st.integers(0, len(prog))), ['block', draw(st.sampled_from(
-                ['pass', 'self._X[t] = self._X[t] + 0', 'if True:\n    pass']))])
+                ['pass', 'self._X[t] = self._X[t] + 0', 'if True:\n    pass', 'pass', '', '# note: nothing to do']))])
         return prog
 
     return build()
